@@ -2,7 +2,6 @@ package main
 
 // placeholder engine types (filled in by their own files)
 type KindEngine struct{}
-type OwnEngine struct{}
 
 func propSpecs() []PropSpec {
 	return []PropSpec{
@@ -12,6 +11,15 @@ func propSpecs() []PropSpec {
 		{ID: "C04", Rules: []string{"E-DISC/parse", "S-EMPTY", "S-SHAPE", "P-LISTS", "P-PARSE", "P-CALLEE", "T-TOKENS", "T-P1", "T-DISPATCH", "T-SCAN", "T-DECODE"},
 			Explanation: "ErrDisc on lexer/parser (no lexer/parser error is dropped or turned into success), no (empty node, nil) return, list-loop event languages, Parse ends at EOF, callee is an identifier, token tables agree, the rune dispatch and scanner predicates equal the lexical grammar, literals are decoded from their whole text.",
 			NotDecided:  "language equality as a whole: slice-bracket grammar ([:1 2], [0:1:2:]), completeness of nud/led acceptance sets ((a)(b), a[*][b])"},
+		{ID: "C06", Rules: []string{"O-MODEL", "O-DOC", "BAN"},
+			Explanation: "Own: an allocation-site points-to / mod analysis of the whole library; every write instruction in every function reachable from Search (through the function table and the sort adapters) is attributed to the abstract objects it may target, and none may be the document blob. Ban: no reflect.Set*, unsafe, cgo.",
+			NotDecided:  "the standard library's own behaviour (modelled, tabulated)"},
+		{ID: "C12", Rules: []string{"O-MODEL", "O-SHARED", "O-DOC", "BAN", "A-SKEL"},
+			Explanation: "Concurrent calls can only interfere through memory they share. The library starts no goroutines and uses no synchronisation (Ban), writes no package-level variable after initialisation (Ban, Own), and every write reachable from (*JMESPath).Search / Search targets only objects allocated in that activation - never the compiled expression, the function table, literal payloads or the document (Own); constructors return fresh objects (A-SKEL).",
+			NotDecided:  "races inside the Go runtime, reflect, encoding/json or sort (trusted)"},
+		{ID: "C13", Rules: []string{"O-MODEL", "O-SHARED", "H-RESET", "A-SKEL", "H-MAPORDER", "BAN"},
+			Explanation: "History independence: Search writes nothing reachable from the compiled expression (Own), so it is the same object before and after any call; Parse re-initialises every Parser field before it is read and tokenizes with a fresh Lexer (H-RESET); one-shot Search and Compile+Search evaluate Execute(fresh interpreter, Parse(fresh parser, expr), data) alike (A-SKEL); no clock/randomness/environment (Ban); map iteration order can only show in keys(), values() and the object wildcard (H-MAPORDER).",
+			NotDecided:  "nothing value-level is needed beyond the trusted standard library"},
 		{ID: "C11", Rules: []string{"E-DISC/eval", "E-LATCH", "P-SLICE0"},
 			Explanation: "ErrDisc: every error produced while evaluating is tested or forwarded on every path and never followed by a success return on its non-nil edge; latched comparison failures are reported after the sort; a zero slice step is raised for every array.",
 			NotDecided:  "errors that should have been raised by type checks (C10); which operands must be evaluated at all (C01/C07 threading rules)"},
